@@ -11,9 +11,10 @@ cycles, OS errors, the before/after order of run and record start/stop.
 import InToto.Proofs.Record
 import InToto.Generated.Facts
 import InToto.Model.SchemaFacts
+import InToto.Proofs.Walk
 
 namespace InToto.C13
-open InToto InToto.Record InToto.RecordProofs
+open InToto InToto.Record InToto.RecordProofs InToto.WalkProofs
 
 /-- C13 (normalisation): the normalised content has no carriage return ... -/
 theorem normalized_has_no_cr (l : List UInt8) : (0x0D : UInt8) ∉ normalize l := normalize_no_cr l
@@ -76,5 +77,44 @@ theorem facts_hash_names : Generated.hashNames = SchemaFacts.expHashNames ∧
   intro a
   simp [supportedAlgs, SchemaFacts.expHashNames]
   constructor <;> intro h <;> rcases h with h | h | h <;> simp [h]
+
+/-- C13 ("exactly one entry per regular file that is not excluded … and nothing else"): if the walk
+    of a tree without symbolic links succeeds, an entry is in the result iff it was there before or
+    it is the entry of a regular file of the tree (`FileAt`: declarative, no order, no fuel) that is
+    not excluded — key = its path with the first matching strip prefix removed, value = its digests
+    for the requested algorithms.  An excluded DIRECTORY is still descended into. -/
+theorem exactly_the_regular_files (cfg : Cfg) (fuel : Nat) (path : Str) (node : Node) (acc m : ArtMap)
+    (hsf : symlinkFree node = true) (h : visit cfg fuel path node acc = .ok m) (e : Str × List (Str × Str)) :
+    e ∈ m ↔ e ∈ acc ∨ ∃ q d hh, FileAt path node q d ∧ cfg.ignored q = false ∧
+      hashObj d cfg.algs = some hh ∧ e = (stripPath cfg.lstrip q, hh) :=
+  visit_ok_mem cfg fuel path node acc m hsf h e
+
+/-- the same for the list of root paths handed to `RecordArtifacts` -/
+theorem exactly_the_regular_files_of_all_roots (cfg : Cfg) (roots : List (Str × Option Node)) (acc m : ArtMap)
+    (hsf : ∀ r ∈ roots, ∀ n, r.2 = some n → symlinkFree n = true)
+    (h : recordArtifacts cfg roots acc = .ok m) (e : Str × List (Str × Str)) :
+    e ∈ m ↔ e ∈ acc ∨ ∃ p n q d hh, (p, some n) ∈ roots ∧ FileAt p n q d ∧ cfg.ignored q = false ∧
+      hashObj d cfg.algs = some hh ∧ e = (stripPath cfg.lstrip q, hh) :=
+  recordArtifacts_ok_mem cfg roots acc m hsf h e
+
+/-- C13 (one entry per name): the recorded names are pairwise distinct — two files that would be
+    recorded under one name are an error, never a silent overwrite -/
+theorem one_entry_per_name (cfg : Cfg) (fuel : Nat) (path : Str) (node : Node) (acc m : ArtMap)
+    (hsf : symlinkFree node = true) (h : visit cfg fuel path node acc = .ok m)
+    (hn : (acc.map Prod.fst).Nodup) : (m.map Prod.fst).Nodup :=
+  visit_ok_nodup cfg fuel path node acc m hsf h hn
+
+/-- C13 (never a partial record): one regular, non-excluded file that cannot be hashed with the
+    requested algorithms fails the whole walk -/
+theorem unhashable_file_fails_the_walk (cfg : Cfg) (fuel : Nat) (path : Str) (node : Node) (acc : ArtMap)
+    (hsf : symlinkFree node = true) (q : Str) (d : List (Str × Str))
+    (hf : FileAt path node q d) (hi : cfg.ignored q = false) (hh : hashObj d cfg.algs = none) :
+    (visit cfg fuel path node acc).isOk = false :=
+  visit_unsupported_fails cfg fuel path node acc hsf q d hf hi hh
+
+/-- the model's recursion bound is an artefact: the fuel `recordArtifacts` starts with always suffices -/
+theorem walk_never_runs_out_of_fuel (cfg : Cfg) (fuel : Nat) (path : Str) (node : Node) (acc : ArtMap)
+    (hf : 2 * nodeSize node + 2 ≤ fuel) : visit cfg fuel path node acc ≠ .err "depth" :=
+  visit_fuel_suffices cfg fuel path node acc hf
 
 end InToto.C13
